@@ -140,6 +140,17 @@ def _p12f(ctx):
     ok2 = bool(dels) and all(x.dom(set(dels) | {n for n in x.ext_calls(r'Vec(::<.*>)?::drain$')}, c.nid) for c in clears)
     ctx.add('P12f', 'T-DOM', fr, ok and ok2, 'the epoch signal is cleared only after a reclamation cycle completed (objects deleted)' if ok and ok2 else
             'MemoryManager::free clears the epoch signal without a completed cycle', sub='cycle-end')
+    # every call of free() attempts to complete the cycle in flight (not only while the backlog is small)
+    attempts = [n for n in x.ext_calls(r'Mutex(::<.*>)?::try_lock$')
+                if any(p_.endswith('MemoryManager.mem_manager') for p_ in g.locpaths(g.call_args(n)[0])) and g.nodes[n].inst == g.root_inst]
+    okA = bool(attempts) and bool(tf) and not (x.reachable_entry(blocked=set(attempts)) & set(g.exits)) and \
+        not (x.reachable_entry(blocked=set(tf) | {e_ for n in attempts for e_ in ()}) & set())
+    # the completion attempt must come before a new cycle may be started in the same call
+    sf = x.inlined(r'memory::MemoryManager::start_free$')
+    okB = all(x.dom(set(attempts), s_) for s_ in sf) if sf else True
+    ctx.add('P12f', 'T-MUST', fr, okA and okB, 'every free() first tries to complete the reclamation cycle in flight, whatever the backlog' if okA and okB else
+            'MemoryManager::free does not attempt to complete the pending reclamation cycle on every call (attempt on every path=%s, before a new cycle is started=%s): once the backlog stays above the threshold while a cycle is pending, nothing is ever reclaimed again'
+            % (okA, okB), sub='always-try-complete')
 
 
 def _p12g(ctx):
